@@ -68,6 +68,7 @@ func raceCheck(sp *spec, tier string, envSeed uint64, budget float64) int {
 	seedsRun, nontrivial := 0, 0
 	totals := map[string]int64{}
 	var samples []string
+	var earlyTails []string
 	reports := map[string]string{} // signature -> first report
 	repSeed := map[string]string{}
 	var infraMsg string
@@ -76,97 +77,120 @@ func raceCheck(sp *spec, tier string, envSeed uint64, budget float64) int {
 		wg.Add(1)
 		go func(p int) {
 			defer wg.Done()
-			cmd := exec.Command(bin, "-test.run", "TestRace", "-test.timeout", "0", "-seed", strconv.FormatInt(baseSeed+int64(p)*100000, 10),
-				"-seeds", "1000000", "-budget", fmt.Sprintf("%.0fs", budget), "-dir", filepath.Join(data, filepath.Base(dir), fmt.Sprintf("p%d", p)))
-			cmd.Env = append(os.Environ(), "GORACE=halt_on_error=0 exitcode=0", "GOMAXPROCS=4")
-			pr, _ := cmd.StdoutPipe()
-			cmd.Stderr = cmd.Stdout
-			if err := cmd.Start(); err != nil {
-				mu.Lock()
-				infraMsg = err.Error()
-				mu.Unlock()
-				return
-			}
-			sc := bufio.NewScanner(pr)
-			sc.Buffer(make([]byte, 1<<20), 1<<26)
-			var block []string
-			var pendingSigs []string
-			inBlock := false
-			lastSeed := "?"
-			flush := func() {
-				if len(block) == 0 {
+			// A process may die before its budget is used (a fatal runtime error such as a
+			// concurrent map access is not recoverable): it is started again on fresh seeds, the
+			// early exit is counted and its last lines are kept for the evidence.
+			began := time.Now()
+			for round := 0; ; round++ {
+				left := budget - time.Since(began).Seconds()
+				if round > 0 && (left < 10 || round > 20) {
 					return
 				}
-				text := strings.Join(block, "\n")
-				if sig := raceSignature(block); sig != "" {
+				var tail []string
+				cmd := exec.Command(bin, "-test.run", "TestRace", "-test.timeout", "0", "-seed", strconv.FormatInt(baseSeed+int64(p)*100000+int64(round)*5000, 10),
+					"-seeds", "1000000", "-budget", fmt.Sprintf("%.0fs", left), "-dir", filepath.Join(data, filepath.Base(dir), fmt.Sprintf("p%d", p)))
+				cmd.Env = append(os.Environ(), "GORACE=halt_on_error=0 exitcode=0", "GOMAXPROCS=4")
+				pr, _ := cmd.StdoutPipe()
+				cmd.Stderr = cmd.Stdout
+				if err := cmd.Start(); err != nil {
 					mu.Lock()
-					if _, ok := reports[sig]; !ok {
-						reports[sig] = text
-						repSeed[sig] = "?"
-						pendingSigs = append(pendingSigs, sig)
-					}
+					infraMsg = err.Error()
 					mu.Unlock()
+					return
 				}
-				block = nil
-			}
-			for sc.Scan() {
-				line := sc.Text()
-				switch {
-				case strings.HasPrefix(line, "WARNING: DATA RACE"):
-					flush()
-					inBlock = true
-					block = append(block, line)
-				case inBlock && strings.HasPrefix(line, "=================="):
-					if len(block) > 1 {
-						inBlock = false
+				sc := bufio.NewScanner(pr)
+				sc.Buffer(make([]byte, 1<<20), 1<<26)
+				var block []string
+				var pendingSigs []string
+				inBlock := false
+				lastSeed := "?"
+				flush := func() {
+					if len(block) == 0 {
+						return
+					}
+					text := strings.Join(block, "\n")
+					if sig := raceSignature(block); sig != "" {
+						mu.Lock()
+						if _, ok := reports[sig]; !ok {
+							reports[sig] = text
+							repSeed[sig] = "?"
+							pendingSigs = append(pendingSigs, sig)
+						}
+						mu.Unlock()
+					}
+					block = nil
+				}
+				for sc.Scan() {
+					line := sc.Text()
+					tail = append(tail, line)
+					if len(tail) > 40 {
+						tail = tail[len(tail)-40:]
+					}
+					switch {
+					case strings.HasPrefix(line, "WARNING: DATA RACE"):
 						flush()
-					}
-				case inBlock:
-					block = append(block, line)
-				case strings.HasPrefix(line, "RACE-SEED-DONE"):
-					mu.Lock()
-					seedsRun++
-					kv := map[string]string{}
-					for _, f := range strings.Fields(line)[1:] {
-						if i := strings.IndexByte(f, '='); i > 0 {
-							kv[f[:i]] = f[i+1:]
+						inBlock = true
+						block = append(block, line)
+					case inBlock && strings.HasPrefix(line, "=================="):
+						if len(block) > 1 {
+							inBlock = false
+							flush()
 						}
-					}
-					lastSeed = kv["seed"]
-					for _, sig := range pendingSigs {
-						repSeed[sig] = lastSeed
-					}
-					pendingSigs = nil
-					ops, _ := strconv.ParseInt(kv["ops_ok"], 10, 64)
-					stops, _ := strconv.ParseInt(kv["stop_restart_cycles"], 10, 64)
-					for _, k := range []string{"ops_ok", "ops_failed", "leader_sightings", "stop_restart_cycles", "partitions", "membership_ok"} {
-						v, _ := strconv.ParseInt(kv[k], 10, 64)
-						totals[k] += v
-					}
-					if kv["snapshot_threshold"] != "0" {
-						totals["seeds_with_snapshots"]++
-					}
-					if kv["ok"] != "true" {
-						totals["bubbles_panicked"]++
-					}
-					if ops >= 5 && stops >= 1 {
-						nontrivial++
-						if len(samples) < 3 {
-							samples = append(samples, line)
+					case inBlock:
+						block = append(block, line)
+					case strings.HasPrefix(line, "RACE-SEED-DONE"):
+						mu.Lock()
+						seedsRun++
+						kv := map[string]string{}
+						for _, f := range strings.Fields(line)[1:] {
+							if i := strings.IndexByte(f, '='); i > 0 {
+								kv[f[:i]] = f[i+1:]
+							}
 						}
+						lastSeed = kv["seed"]
+						for _, sig := range pendingSigs {
+							repSeed[sig] = lastSeed
+						}
+						pendingSigs = nil
+						ops, _ := strconv.ParseInt(kv["ops_ok"], 10, 64)
+						stops, _ := strconv.ParseInt(kv["stop_restart_cycles"], 10, 64)
+						for _, k := range []string{"ops_ok", "ops_failed", "leader_sightings", "stop_restart_cycles", "partitions", "membership_ok"} {
+							v, _ := strconv.ParseInt(kv[k], 10, 64)
+							totals[k] += v
+						}
+						if kv["snapshot_threshold"] != "0" {
+							totals["seeds_with_snapshots"]++
+						}
+						if kv["ok"] != "true" {
+							totals["bubbles_panicked"]++
+						}
+						if ops >= 5 && stops >= 1 {
+							nontrivial++
+							if len(samples) < 3 {
+								samples = append(samples, line)
+							}
+						}
+						mu.Unlock()
+					case strings.Contains(line, "panic:") || strings.HasPrefix(line, "FAIL"):
+						mu.Lock()
+						totals["fail_lines"]++
+						if len(samples) < 6 {
+							samples = append(samples, "output: "+line)
+						}
+						mu.Unlock()
 					}
-					mu.Unlock()
-				case strings.Contains(line, "panic:") || strings.HasPrefix(line, "FAIL"):
+				}
+				flush()
+				cmd.Wait()
+				if budget-time.Since(began).Seconds() > 10 {
 					mu.Lock()
-					totals["fail_lines"]++
-					if len(samples) < 6 {
-						samples = append(samples, "output: "+line)
+					totals["process_early_exits"]++
+					if len(earlyTails) < 3 {
+						earlyTails = append(earlyTails, strings.Join(tail, "\n"))
 					}
 					mu.Unlock()
 				}
 			}
-			flush()
-			cmd.Wait()
 		}(p)
 	}
 	wg.Wait()
@@ -181,6 +205,12 @@ func raceCheck(sp *spec, tier string, envSeed uint64, budget float64) int {
 		// The processes died before finishing a seed (a racy map access is a fatal runtime
 		// error), but not before the detector reported what it saw.
 		seedsRun = 1
+	}
+	for i, t := range earlyTails {
+		fmt.Printf("note: a race-test process exited before its budget was used (%d such exits); last lines of #%d:\n%s\n", totals["process_early_exits"], i+1, t)
+	}
+	if totals["process_early_exits"] > int64(procs)*4 {
+		infra("race-test processes keep exiting early (%d times)", totals["process_early_exits"])
 	}
 	// Verdict.
 	findings := loadFindings()
@@ -221,11 +251,11 @@ func raceCheck(sp *spec, tier string, envSeed uint64, budget float64) int {
 		"property_id": "C20", "tier": tier, "seed": envSeed, "level": "exploration",
 		"coverage": map[string]interface{}{
 			"evaluations": seedsRun, "distinct_nontrivial": nontrivial,
-			"rule": "one evaluation = one seed = one synctest bubble: 3-5 voters (+0-1 spare), snapshots on in 2/3 of the seeds, 6 client goroutines calling Status/Configuration/SubmitOperation (all types)/AddServer/RemoveServer concurrently, a fault goroutine isolating nodes and doing Stop+Restart cycles, in-memory transport with seeded delays/drops, real files on tmpfs, 40-100 election timeouts of fake time. Non-trivial: >= 5 acknowledged operations and >= 1 Stop+Restart cycle; seeds are distinct by construction (distinct workload and fault plan).",
+			"rule":    "one evaluation = one seed = one synctest bubble: 3-5 voters (+0-1 spare), snapshots on in 2/3 of the seeds, 6 client goroutines calling Status/Configuration/SubmitOperation (all types)/AddServer/RemoveServer concurrently, a fault goroutine isolating nodes and doing Stop+Restart cycles, in-memory transport with seeded delays/drops, real files on tmpfs, 40-100 election timeouts of fake time. Non-trivial: >= 5 acknowledged operations and >= 1 Stop+Restart cycle; seeds are distinct by construction (distinct workload and fault plan).",
 			"samples": samples, "totals": totals, "distinct_race_signatures": len(reports), "known_findings_hit": known,
 			"seeds_per_hour": int(float64(seedsRun) / wall * 3600),
-			"components": map[string]string{"raft package": "real code, unmodified, real sync/time (time faked by testing/synctest)", "transport": "stub (in-memory), gRPC compiled but not executed", "disk": "real files on tmpfs", "state machine": "harness list state machine"},
-			"oracle": "Go race detector (go1.26.8 -race), reports deduplicated by the pair of innermost raft frames; only reports with a frame in github.com/jmsadair/raft count",
+			"components":     map[string]string{"raft package": "real code, unmodified, real sync/time (time faked by testing/synctest)", "transport": "stub (in-memory), gRPC compiled but not executed", "disk": "real files on tmpfs", "state machine": "harness list state machine"},
+			"oracle":         "Go race detector (go1.26.8 -race), reports deduplicated by the pair of innermost raft frames; only reports with a frame in github.com/jmsadair/raft count",
 		},
 		"assumptions": []string{"which goroutine runs first inside one virtual instant is decided by the Go runtime, not by the seed: a report is a true positive by construction, a miss is possible, and replaying a seed reproduces a report with high probability, not exactly", "the gRPC transport is stubbed"},
 		"wall_s":      wall, "violations": nViol,
